@@ -106,3 +106,9 @@ Fixpoint mismatches (T : tables) (fuel : nat) (i : nat) (l : list gcase) : list 
   | g :: r => let k := check_case T fuel g in
               if Nat.eqb k 0 then mismatches T fuel (S i) r else (i, k) :: mismatches T fuel (S i) r
   end.
+
+(* how many of the cases lie in the domain of the round-trip theorem (typed trees) *)
+From LNML Require Import Model.GdsWf.
+Definition x_typed := typedb XF dec_eqb show_dec parse_dec.
+Definition typed_count (T : tables) (fuel : nat) (l : list gcase) : nat :=
+  length (filter (fun g => x_typed fuel T (g_obj g)) l).
